@@ -63,7 +63,7 @@ func (h *OperationHandler) PrepareTxnFiles(ops []*operation.QueuedOperation) (*p
 
 	// special case: if all ops are deactivate don't create chunk and provisional files
 	provisionalIndexURI := ""
-	if len(parsedOps.Deactivate) != len(ops) {
+	if len(parsedOps.Deactivate) != parsedOps.Size() {
 		chunkURI, innerErr := h.createChunkFile(parsedOps)
 		if innerErr != nil {
 			return nil, innerErr
